@@ -11,6 +11,10 @@ func (rs *RecordSet) readFromVersion2(d *decoder) error {
 	baseOffset := d.readInt64()
 	batchLength := d.readInt32()
 
+	if batchLength < 0 {
+		return Errorf("invalid negative record batch length: %d", batchLength)
+	}
+
 	if int(batchLength) > d.remain || d.err != nil {
 		d.discardAll()
 		return nil
@@ -65,6 +69,11 @@ func (rs *RecordSet) readFromVersion2(d *decoder) error {
 	recordsLength := buffer.Len()
 	dec.reader = buffer
 	dec.remain = recordsLength
+
+	// every record takes at least one byte of the (decompressed) records section
+	if numRecords < 0 || int(numRecords) > recordsLength {
+		return Errorf("invalid record count in record batch: %d records in %d bytes", numRecords, recordsLength)
+	}
 
 	records := make([]optimizedRecord, numRecords)
 	// These are two lazy allocators that will be used to optimize allocation of
